@@ -12,8 +12,8 @@ CERTS = ('Generic_Cert', 'Persona_Cert', 'Casual_Cert', 'Positive_Cert', 'CertRe
 CASES = [(t, k) for t in CERTS for k in ('uid', 'ua')] + [
     ('Subkey_Binding', 'sub'), ('Subkey_Binding', 'primary-with-subkey'), ('PrimaryKey_Binding', 'sub'), ('PrimaryKey_Binding', 'primary-with-subkey'),
     ('SubkeyRevocation', 'sub'), ('KeyRevocation', 'key'), ('DirectlyOnKey', 'key'), ('DirectlyOnKey', 'sub-as-key'),
-    ('BinaryDocument', 'doc'), ('BinaryDocument', 'str'), ('CanonicalDocument', 'doc'), ('Standalone', 'doc'), ('Timestamp', 'doc'),
-    ('ThirdParty_Confirmation', 'doc')]
+    ('BinaryDocument', 'doc'), ('BinaryDocument', 'str'), ('CanonicalDocument', 'doc'), ('Standalone', 'none'), ('Timestamp', 'none'),
+    ('Standalone', 'doc'), ('Timestamp', 'doc'), ('Timestamp', 'uid'), ('Standalone', 'key'), ('ThirdParty_Confirmation', 'doc')]
 
 
 def k99(body):
@@ -84,9 +84,15 @@ def hashdata(typename, kind, fresh_signature=False):
             return [(st, E.VNone())]
         r.hook('pgpy.packet.packets.SignatureV4', 'update_hlen', scn.method_hook(update_hlen))
         subject = {'uid': uid, 'ua': uid, 'key': key, 'sub': sub, 'sub-as-key': sub, 'primary-with-subkey': key,
-                   'doc': E.VBytes(DOC), 'str': E.VStr(z=DOC)}[kind]
+                   'doc': E.VBytes(DOC), 'str': E.VStr(z=DOC), 'none': E.VNone()}[kind]
         outs = r.call(sig, [subject])
+        no_subject_type = typename in ('Standalone', 'Timestamp')
         for pi, (s, v) in enumerate(outs):
+            if no_subject_type and kind != 'none':
+                # these types sign only their own subpackets: a subject must be refused, never silently ignored
+                r.oblige(s, 'subject-refused-for-a-signature-that-signs-no-subject/p%d' % pi,
+                         z3.BoolVal(isinstance(v, E.Raise) and v.exc.split(':')[0] == 'PGPError'), getattr(v, 'where', None))
+                continue
             if isinstance(v, E.Raise):
                 r.oblige(s, 'safety(%s)/p%d' % (v.exc.split(':')[0], pi), z3.BoolVal(False), v.where)
                 continue
